@@ -1,4 +1,5 @@
 import GqlProofs.Format.ReloadSchema
+import GqlProofs.Schema.Roots
 /-
   Assembly of the reload theorem for the models (`reload_main`).
 -/
@@ -201,6 +202,24 @@ theorem inferRoots_printable {T : List (Name × Definition)} {s : Schema}
   rw [show nameQuery = str "Query" from rfl, show nameMutation = str "Mutation" from rfl,
     show nameSubscription = str "Subscription" from rfl, key _ _ hq hres.1, key _ _ hm hres.2.1, key _ _ hs hres.2.2]
 
+/-- the last check of the loader (root operation types are object types) transfers along a
+    skeleton-equivalence of states: it reads only the kind of the root definitions -/
+theorem checkRootKinds_transfer {st st' : LState} (E : SkEq st st') {r : Roots}
+    (h : checkRootKinds st r = .pass) : checkRootKinds st' r = .pass := by
+  rw [checkRootKinds_pass_iff] at h ⊢
+  intro o ho n d' hr hl'
+  have := E.types n
+  rw [hl'] at this
+  cases hl : st.types.lookup n with
+  | none => rw [hl] at this; cases this
+  | some d =>
+    rw [hl] at this
+    simp only [Option.map_some, Option.some.injEq] at this
+    have hk : (skDef d').kind = (skDef d).kind := congrArg Definition.kind this
+    have hk : d'.kind = d.kind := hk
+    rw [hk]
+    exact h o ho n d hr hl
+
 /-- **the reload theorem for the models** -/
 theorem reload_main {cfg : Cfg} {pre u : SchemaDoc} {s : Schema} {P : SchemaDoc} (hb : cfg.emitBuiltin = false)
     (hpre : PreludeShape pre) (hu : UserShape pre u) (hload : load (pre.merge u) = .ok s) (hP : Reparsed cfg s P)
@@ -220,10 +239,16 @@ theorem reload_main {cfg : Cfg} {pre u : SchemaDoc} {s : Schema} {P : SchemaDoc}
     intro ds hds
     apply validateDirectives_transfer E (skDirs_of_reparsed hds)
     rw [hsdirs]; exact hsd
+  -- the roots of the reloaded schema are those of `s`, whose definitions have the same kinds in both states
+  have hkinds : checkRootKinds st' ⟨s.query, s.mutation, s.subscription⟩ = .pass := by
+    apply checkRootKinds_transfer E
+    have : (⟨s.query, s.mutation, s.subscription⟩ : Roots) = finalRoots (pre.merge u) st r1 := by rw [F.eq]; rfl
+    rw [this]; exact F.rootKinds
   have hload' : ∀ r0 d0 r1' d1', P.schema.length ≤ 1 → applySchemaDefs st' P.schema noRoots [] = .ok r0 d0 →
       applySchemaDefs st' P.schemaExt r0 d0 = .ok r1' d1' →
+      finalRoots (pre.merge P) st' r1' = ⟨s.query, s.mutation, s.subscription⟩ →
       load (pre.merge P) = .ok (mkSchema (pre.merge P) st' r1' d1') := by
-    intro r0 d0 r1' d1' hlen h0 h1'
+    intro r0 d0 r1' d1' hlen h0 h1' hfr
     simp only [load, hb']
     apply finish_eq_ok (r0 := r0) (d0 := d0)
     · rw [hschema]; exact hlen
@@ -231,6 +256,7 @@ theorem reload_main {cfg : Cfg} {pre u : SchemaDoc} {s : Schema} {P : SchemaDoc}
     · rw [hschemaExt]; exact h1'
     · exact hvt'
     · exact hvd'
+    · rw [hfr]; exact hkinds
   cases hn : needSchema s with
   | true =>
     have e1 := hP.schema
@@ -245,7 +271,8 @@ theorem reload_main {cfg : Cfg} {pre u : SchemaDoc} {s : Schema} {P : SchemaDoc}
       rw [opPairs_of_erasePos hXops]
       exact setRootsP_rootOpTypes hRR
     have h0 := apply_one (acc := []) hops (hdirsOK X.dirs hXdirs)
-    refine ⟨_, hload' _ _ _ _ (by rw [hX]; simp) (by rw [hX]; exact h0) (by rw [e2]; rfl), ?_⟩
+    refine ⟨_, hload' _ _ _ _ (by rw [hX]; simp) (by rw [hX]; exact h0) (by rw [e2]; rfl)
+      (by unfold finalRoots; rw [hschema, hX]; rfl), ?_⟩
     apply C.equiv hb' ht h1 hD
     · unfold finalRoots; rw [hschema, hX]; rfl
     · simpa using hXdirs
@@ -269,7 +296,8 @@ theorem reload_main {cfg : Cfg} {pre u : SchemaDoc} {s : Schema} {P : SchemaDoc}
     · have e2 := hP.schemaExt
       simp only [docOfSchemaRaw, hn, hde, Bool.not_false, Bool.not_true, Bool.and_false, Bool.false_eq_true, ↓reduceIte,
         mergeSchemaDefs, List.map_nil, List.map_eq_nil_iff] at e2
-      refine ⟨_, hload' noRoots [] noRoots [] (by rw [e1]; simp) (by rw [e1]; rfl) (by rw [e2]; rfl), ?_⟩
+      refine ⟨_, hload' noRoots [] noRoots [] (by rw [e1]; simp) (by rw [e1]; rfl) (by rw [e2]; rfl)
+        (by rw [hfin]; exact hinf), ?_⟩
       apply C.equiv hb' ht h1 hD
       · rw [hfin]; exact hinf
       · have : s.schemaDirectives = [] := by simpa using hde
@@ -283,7 +311,8 @@ theorem reload_main {cfg : Cfg} {pre u : SchemaDoc} {s : Schema} {P : SchemaDoc}
       simp only [List.map_nil, List.map_eq_nil_iff] at hXdirs hXops
       have hops : setRoots st'.types X.opTypes noRoots = .ok noRoots := by rw [hXops]; rfl
       have h0 := apply_one (acc := []) hops (hdirsOK X.dirs hXdirs)
-      refine ⟨_, hload' noRoots [] _ _ (by rw [e1]; simp) (by rw [e1]; rfl) (by rw [hX]; exact h0), ?_⟩
+      refine ⟨_, hload' noRoots [] _ _ (by rw [e1]; simp) (by rw [e1]; rfl) (by rw [hX]; exact h0)
+        (by rw [hfin]; exact hinf), ?_⟩
       apply C.equiv hb' ht h1 hD
       · rw [hfin]; exact hinf
       · simpa using hXdirs
